@@ -83,6 +83,22 @@ func (r *Run) Logf(format string, args ...any) {
 	}
 }
 
+// Log is Logf without formatting (usable where fmt must be avoided).
+//
+//go:norace
+func (r *Run) Log(line string) {
+	r.hw.Write([]byte(line))
+	r.hw.Write([]byte{'\n'})
+	if len(r.trace) < 4000 {
+		r.trace = append(r.trace, line)
+	}
+}
+
+// HashOnly feeds the trace hash without keeping a line.
+//
+//go:norace
+func (r *Run) HashOnly(b []byte) { r.hw.Write(b) }
+
 // Fail records the first violation of the run (later ones are ignored: after a
 // divergence the model no longer describes the system).
 //
